@@ -309,3 +309,78 @@ fn c10_q_userdata_flag_word_any() {
     kani::cover!(flags == 3);
     core::mem::forget(ud);
 }
+
+/// One attachment step from an ARBITRARY context (inductive step for histories of any length): a parser state with 2
+/// layers, 2 slices, 2 tags and one cel, none of which has user data yet; the attachment context is symbolic over every
+/// variant and index (valid and invalid). add_user_data attaches the record to exactly the entity the context names --
+/// and to nothing else -- advances a tag context by one, and reports contexts that name nothing as error values.
+#[kani::proof]
+#[kani::unwind(6)]
+#[kani::stub(alloc::fmt::format, crate::vklib::empty_format)]
+#[kani::stub(std::hash::RandomState::new, crate::vklib::fixed_random_state)]
+fn c10_q_attach_step_any_context() {
+    let mut info = ParseInfo::new(1, 100);
+    info.layers.push(crate::layer::vkl::mk_layer(1, 0, crate::BlendMode::Normal, 255, crate::LayerType::Image));
+    info.layers.push(crate::layer::vkl::mk_layer(1, 0, crate::BlendMode::Normal, 255, crate::LayerType::Image));
+    info.slices.push(Slice { name: String::new(), keys: Vec::new(), user_data: None });
+    info.slices.push(Slice { name: String::new(), keys: Vec::new(), user_data: None });
+    info.tags = Some(vec![crate::tags::vkl::mk_tag(String::new(), 0, 0), crate::tags::vkl::mk_tag(String::new(), 0, 1)]);
+    let cel = cel::RawCel {
+        data: cel::CelCommon { layer_index: 1, x: 0, y: 0, opacity: 255 },
+        content: cel::CelContent::Linked(0),
+        user_data: None,
+    };
+    let added = info.framedata.add_cel(0, cel);
+    assert!(added.is_ok());
+    core::mem::forget(added);
+    // symbolic context
+    let which: u8 = kani::any();
+    let idx: u8 = kani::any();
+    kani::assume(which < 6 && idx < 4);
+    info.user_data_context = match which {
+        0 => None,
+        1 => Some(UserDataContext::LayerIndex(idx as u32)),
+        2 => Some(UserDataContext::SliceIndex(idx as u32)),
+        3 => Some(UserDataContext::TagIndex(idx as u16)),
+        4 => Some(UserDataContext::OldPalette),
+        _ => Some(UserDataContext::CelId(CelId { frame: 0, layer: idx as u16 })),
+    };
+    let col: [u8; 4] = kani::any();
+    let r = info.add_user_data(UserData { text: None, color: Some(image::Rgba(col)) });
+    let is = |u: &Option<UserData>| match u {
+        Some(UserData { text: None, color: Some(c) }) => c.0[0] == col[0] && c.0[1] == col[1] && c.0[2] == col[2] && c.0[3] == col[3],
+        _ => false,
+    };
+    let valid = match which {
+        0 => false,
+        1 => idx < 2,
+        2 => idx < 2,
+        3 => idx < 2,
+        4 => true,
+        _ => idx == 1,
+    };
+    assert!(r.is_ok() == valid, "a context that names an existing entity attaches; anything else is an error value");
+    let tags = info.tags.as_ref().unwrap();
+    let cel_ud = &info.framedata.cel(CelId { frame: 0, layer: 1 }).unwrap().user_data;
+    for k in 0..2usize {
+        assert!(is(&info.layers[k].user_data) == (valid && which == 1 && idx as usize == k), "layer k gets the record iff the context names it");
+        assert!(is(&info.slices[k].user_data) == (valid && which == 2 && idx as usize == k), "slice k likewise");
+        assert!(is(&tags[k].user_data) == (valid && which == 3 && idx as usize == k), "tag k likewise");
+        assert!(info.layers[k].user_data.is_some() == is(&info.layers[k].user_data));
+        assert!(info.slices[k].user_data.is_some() == is(&info.slices[k].user_data));
+        assert!(tags[k].user_data.is_some() == is(&tags[k].user_data));
+    }
+    assert!(is(cel_ud) == (valid && which == 5) && cel_ud.is_some() == is(cel_ud), "the cel gets the record iff the context names it");
+    assert!(is(&info.sprite_user_data) == (which == 4) && info.sprite_user_data.is_some() == (which == 4), "the sprite gets it iff a legacy palette preceded");
+    if valid && which == 3 {
+        match info.user_data_context {
+            Some(UserDataContext::TagIndex(n)) => assert!(n == idx as u16 + 1, "the next record goes to the next tag"),
+            _ => assert!(false),
+        }
+    }
+    kani::cover!(which == 3 && idx == 1 && r.is_ok());
+    kani::cover!(which == 5 && idx == 0 && r.is_err());
+    kani::cover!(which == 0);
+    core::mem::forget(r);
+    core::mem::forget(info);
+}
